@@ -3,6 +3,8 @@
 set -e
 cd "$(dirname "$0")"
 mkdir -p evidence replays
+# finite tables are regenerated from /repo's current code before anything is built
+/venv/bin/python -c "import sys; sys.path.insert(0, 'harness'); import tables; tables.write_tables()" >/dev/null
 cd lean
 lake build CfdpVerif driver
 /venv/bin/python -m compileall -q ../harness >/dev/null 2>&1 || true
